@@ -517,7 +517,7 @@ def _left(L):
     return Ite(b.pos <= b.buf.length, b.buf.length - b.pos + 1, 0)
 
 
-CHUNKS = LoopSpec("AXMLParser._do_next#0", invariant=lambda s, L, k: And(L["self"]._valid is True, L["self"].buff.pos >= 0),
+CHUNKS = LoopSpec("AXMLParser._do_next#0", invariant=lambda s, L, k: And(L["self"]._valid is True, L["self"].buff.pos >= s.G["p0"]),
                   variant=lambda s, L, k: _left(L), const=("self",), at_havoc=_havoc_outer,
                   havoc={"h": lambda s, L: _PrevHeader(s.G["U"].int("prev.end@", 0, ubuf.MAXLEN))})
 
@@ -565,6 +565,11 @@ def chunk_loop_terminates(U):
     p.sb, p.m_resourceIDs, p.namespaces, p.m_event = _SB(), [], [], -1
     p._reset()
     for sp in (CHUNKS, RESMAP_T, ATTRS_T, SHIFT_T, HDR_SKIP_T):
-        sp.G = {"U": U}
+        sp.G = {"U": U, "p0": p0}
     o = U.call(p._do_next)
     U.ensures("the step returns (event or error)", o.ok or o.raised(m.__pyvc_struct__.error, m.ResParserError), exc=repr(o.exc))
+    if o.ok and p._valid:
+        # progress per call (what the callers' loops -- AXMLPrinter.__init__, get_apkid -- rely on): a step that reports a tag or text
+        # has consumed at least one chunk header
+        U.ensures("a step that reports START_TAG / END_TAG / TEXT leaves the stream at least 8 bytes further",
+                  Or(p.m_event == m.END_DOCUMENT, p.buff.pos >= p0 + 8), event=p.m_event)
